@@ -109,34 +109,44 @@ def optional_untagged(ctx, chk):
     b = bodies[0]
     pe = ps.PathEval(b, zb.adts)
     rets = [i for i in sorted(b.reachable(0)) if b.blocks[i]["term"]["t"] == "return"]
-    n_none = 0
+    n_none = n_ok = 0
     for r in rets:
         for path in ps.simple_paths(b, 0, r):
             env, conds = pe.run(path)
-            untagged = any(ps.strip(ps.norm(ce)) == ("discr", ("pre", 2)) and taken == 0 for _, ce, taken, _ in conds)
+            tagged = None              # True: the path is taken only with a tag, False: only without one
             for _, ce, taken, listed in conds:
                 c = ps.strip(ps.norm(ce))
+                if c == ("discr", ("pre", 2)):
+                    if taken in (0, 1):
+                        tagged = bool(taken)
+                    elif taken == "else" and len(listed) == 1 and listed[0] in (0, 1):
+                        tagged = not bool(listed[0])
                 if c[0] == "call" and c[2] and ps.strip(c[2][0]) == ("pre", 2):
                     truth = (taken == "else") if listed == [0] else (taken != 0)
-                    if (c[1].endswith("Option::<T>::is_none") and truth) or (c[1].endswith("Option::<T>::is_some") and not truth):
-                        untagged = True
+                    if c[1].endswith("Option::<T>::is_none"):
+                        tagged = not truth
+                    elif c[1].endswith("Option::<T>::is_some"):
+                        tagged = truth
             # ... or the element decoder is called with a literal `None` tag on this path
             for bb_ in path:
                 t_ = b.blocks[bb_]["term"]
                 if t_["t"] == "call" and mirlite.callee(t_) == layout.DESER and len(t_["args"]) == 2:
                     a_ = ps.strip(ps.norm(pe.operand(t_["args"][1], env)))
                     if a_[0] == "agg" and str(a_[1]).endswith("Option::None"):
-                        untagged = True
-            if not untagged:
-                continue
-            n_none += 1
+                        tagged = False
             e = ps.norm(env.get(0, ("konst", "no value")))
-            chk.require(e[0] == "agg" and str(e[1]).endswith("Result::Ok"), "C12-g/optional-untagged-total", "Option<T>::deserialize_tagged",
+            is_ok = e[0] == "agg" and str(e[1]).endswith("Result::Ok")
+            n_ok += 1 if is_ok else 0
+            if tagged is False:
+                n_none += 1
+            # a failing path must be one that is only taken with a tag
+            chk.require(is_ok or tagged is True, "C12-g/optional-untagged-total", "Option<T>::deserialize_tagged",
                         "without a tag the optional-field reader can fail (%s): a positional optional that is absent would be an error "
                         "for element types whose decoder fails otherwise than by running out of input" % ps.show(e)[:80],
                         "Ok on every untagged path", b.sp())
-    chk.require(n_none >= 2, "C12-g/optional-untagged-total", "Option<T>::deserialize_tagged",
-                "expected at least two untagged paths (present / absent), found %d" % n_none, "", b.sp(), nontrivial=False)
+    chk.require(n_none >= 1 and n_ok >= 2, "C12-g/optional-untagged-total", "Option<T>::deserialize_tagged",
+                "expected a present and an absent successful path and one path taken without a tag, found %d/%d" % (n_ok, n_none), "",
+                b.sp(), nontrivial=False)
 
 
 def vec_writer(ctx, chk):
